@@ -5,6 +5,7 @@ TripQuick == {
   <<IntV(7), IntV(2), IntV(3)>>,
   <<Bool(TRUE), Bool(FALSE), Bool(TRUE)>>,
   <<Null, IntV(2), Dec(1, 2)>>,
+  <<Null, IntV(0), Dec(0, 1)>>,          \* NULL meets the zero divisors: NULL / 0 is NULL, not an error
   <<IntV(-7), Dec(3, 2), IntV(0)>>,
   <<Str(a_), Str(b_), Str(a_)>>,
   <<List(<<1, 2>>), IntV(2), List(<<2, 3>>)>> }
